@@ -173,9 +173,9 @@ Definition remove (s : sstate) : sstate * list action :=
   let s1 := with_rs (with_tdc (after_close s) 3) false in
   let a2 := [Fsm Idle Idle] in
   match cp s with
-  | M0 | MN | MR => (with_cp s1 ST, a1 ++ a2 ++ [Fsm Idle Idle])   (* the loop dies on the missing proto: _reset() *)
+  | M0 | MN | MR => (with_cp s1 MP, a1 ++ a2)   (* the loop leaves at its next step (LoopExit): it finds no proto, _reset() *)
   | W | ST => (with_cp s1 ST, a1 ++ a2)
-  | _ => (s1, a1 ++ a2)                                             (* CN RO RK MP: the coroutine goes on until it notices *)
+  | _ => (s1, a1 ++ a2)                          (* CN RO RK MP: the coroutine goes on until it notices *)
   end.
 
 Definition session_step (s : sstate) (e : event) : sstate * list action :=
